@@ -116,6 +116,17 @@ func c18Run(f []string) string {
 		return c18One("duration", 1, nil, hs(1))
 	case "durf":
 		return c18One("durationformat", 1, nil, hs(1))
+	case "zone": // zone zonehex table at|date n: Go's own zone arithmetic against the transition-table model
+		z := c18LoadZone(hs(1))
+		n, _ := strconv.ParseInt(f[4], 10, 64)
+		if f[3] == "at" {
+			name, off := time.Unix(n, 0).In(z.loc).Zone()
+			return fmt.Sprintf("ok off=%d abbr=%s", off, HexS(name))
+		}
+		w := time.Unix(n, 0).UTC()
+		return fmt.Sprintf("ok unix=%d", time.Date(w.Year(), w.Month(), w.Day(), w.Hour(), w.Minute(), w.Second(), 0, z.loc).Unix())
+	case "ztime": // ztime fmt zone str table
+		return c18One("time", 3, []string{hs(1), hs(2)}, hs(3))
 	case "cal": // reference calendar against Go's own (no rare code involved)
 		days, _ := strconv.ParseInt(f[1], 10, 64)
 		t := time.Unix(days*86400, 0).UTC()
@@ -175,8 +186,8 @@ func c18Init() {
 			t := time.Unix(c18Min, 0).In(z.loc)
 			for i := 0; i < 600; i++ {
 				_, end := t.ZoneBounds()
-				if end.IsZero() || end.Unix() >= c18Max {
-					break
+				if end.IsZero() || end.Unix() >= c18Max || (len(tr) > 0 && end.Unix() <= tr[len(tr)-1]) {
+					break // (ZoneBounds stops progressing around 2041: the list ends there)
 				}
 				tr = append(tr, end.Unix())
 				t = end
@@ -191,6 +202,75 @@ func c18Ok(z c18Zone) string {
 		return "1"
 	}
 	return "0"
+}
+
+// c18Table renders the transitions of z within +-3 years of u as `<off>:<abbr>,<from>:<off>:<abbr>,…`
+// (what the zone is before the first listed transition, then each transition).
+func c18Table(z c18Zone, u int64) string {
+	const span = 3 * 366 * 86400
+	var sb strings.Builder
+	first := true
+	last := int64(-1 << 62)
+	for _, t := range c18Transitions[z.arg] {
+		if t < u-span || t > u+span || t <= last { // (ZoneBounds repeats its last bound once it stops progressing)
+			continue
+		}
+		last = t
+		if first {
+			off, abbr := c18ZoneAt(z, t-1)
+			fmt.Fprintf(&sb, "%d:%s", off, HexS(abbr))
+			first = false
+		}
+		off, abbr := c18ZoneAt(z, t)
+		fmt.Fprintf(&sb, ",%d:%d:%s", t, off, HexS(abbr))
+	}
+	if first {
+		off, abbr := c18ZoneAt(z, u)
+		fmt.Fprintf(&sb, "%d:%s", off, HexS(abbr))
+	}
+	return sb.String()
+}
+
+// layouts without any zone information: the location argument alone decides the instant
+var c18ZonelessLayouts = []string{"ANSIC", "2006-01-02 15:04:05", "2006-01-02T15:04:05", "Jan _2 2006 15:04:05", "02/01/2006 15:04", "2006-01-02", "Monday, 02-Jan-06 15:04:05", "15:04:05 2006-01-02"}
+
+// c18ZoneCases: the transition-table ops around the transitions of z (gaps and overlaps included).
+func c18ZoneCases(r *Rand, z c18Zone, add func(string)) {
+	tr := c18Transitions[z.arg]
+	var u int64
+	if len(tr) > 0 && r.Chance(4, 5) {
+		u = Pick(r, tr) + Pick(r, []int64{-7201, -7200, -3601, -3600, -1801, -1800, -1, 0, 1, 1799, 1800, 3599, 3600, 3601, 7199, 7200, 86400, -86400}) + int64(r.Intn(3)) - 1
+	} else {
+		u = 3*86400 + int64(r.U64()%uint64(c18Max-6*86400))
+	}
+	if u < 3*86400 || u > c18Max-3*86400 || (len(tr) > 0 && u > tr[len(tr)-1]-3*86400) {
+		return // the table is complete only up to the last transition ZoneBounds reports
+	}
+	tab := c18Table(z, u)
+	switch r.Intn(3) {
+	case 0:
+		add(fmt.Sprintf("zone %s %s at %d", HexS(z.arg), tab, u))
+	case 1: // u read as a wall clock: near a transition this hits the gap / the overlap
+		off, _ := c18ZoneAt(z, u)
+		w := u + int64(off)*int64(r.Intn(2))
+		add(fmt.Sprintf("zone %s %s date %d", HexS(z.arg), c18Table(z, w), w))
+	default:
+		f := Pick(r, c18ZonelessLayouts)
+		layout, named := c18Layouts[f]
+		if !named {
+			layout = f
+		}
+		t := time.Unix(u, 0).In(z.loc)
+		s := t.Format(layout)
+		if r.Chance(1, 3) { // the wall clock shifted back: into the gap, if u is just after a spring-forward transition
+			_, o := t.Zone()
+			s = time.Unix(u+int64(o)-Pick(r, []int64{1, 1800, 3600}), 0).UTC().Format(layout)
+		}
+		if y := t.Year(); y < 1971 || y > 2098 {
+			return
+		}
+		add(fmt.Sprintf("ztime %s %s %s %s", HexS(f), HexS(z.arg), HexS(s), tab))
+	}
 }
 
 // ---------------------------------------------------------------- generators
@@ -518,6 +598,18 @@ func c18Gen(r *Rand, tier string) []string {
 		}
 	}
 
+	// zones as transition tables: lookup, time.Date resolution, {time} without zone text (no oracle)
+	nz := 1500
+	if tier == "thorough" {
+		nz = 40000
+	}
+	for i := 0; i < nz; i++ {
+		z := c18Zones[7+r.Intn(23)] // the named IANA zones
+		if z.ok {
+			c18ZoneCases(r, z, add)
+		}
+	}
+
 	// reference calendar against Go's calendar, no rare code involved
 	nc := 1500
 	if tier == "thorough" {
@@ -704,6 +796,11 @@ func c18Stats(cases []string) map[string]int {
 		f := strings.Fields(c)
 		st["op."+f[0]]++
 		switch f[0] {
+		case "zone", "ztime":
+			if f[0] == "zone" {
+				st["zone-op."+f[3]]++
+			}
+			continue
 		case "fmt", "attr", "time":
 			zones[f[3]] = true
 			if f[4] == "0" {
